@@ -53,6 +53,9 @@ type spec struct {
 	// unauth: further argument lists for which the requirement is the same; run under the insufficient signer sets
 	// only, where they must be as inert as the main list (e.g. a transfer whose receiver is the present owner)
 	unauth func(p *prep) [][]any
+	// via: the same request made from inside another contract (target.method(args) calls the method under test); run
+	// under the insufficient signer sets only: who relays the request changes nothing about whose witness it needs
+	via func(p *prep) (util.Uint160, string, []any)
 }
 
 func adminAlone(p *prep) []signerSet {
@@ -168,14 +171,17 @@ var table = map[string]spec{
 	"netmap.addPeer/1": {kind: kKeyAlphabet, key: func(p *prep) *keys.PrivateKey { return p.node1 }, args: func(p *prep) []any {
 		return []any{nodeBlob(p.node1.PublicKey().Bytes(), 2)}
 	}},
-	"netmap.addPeerIR/1":            {kind: kAlphabet, args: func(p *prep) []any { return []any{nodeBlob(p.node1.PublicKey().Bytes(), 2)} }},
-	"netmap.deleteNode/1":           {kind: kAlphabet, args: func(p *prep) []any { return []any{p.node0.PublicKey().Bytes()} }},
-	"netmap.lastEpochBlock/0":       {kind: kNone, noEffect: true, args: func(p *prep) []any { return nil }},
-	"netmap.newEpoch/1":             {kind: kAlphabet, args: func(p *prep) []any { return []any{p.epoch + 1} }},
-	"netmap.setConfig/3":            {kind: kAlphabet, args: func(p *prep) []any { return []any{[]byte("id"), []byte("SomeKey"), []byte("v")} }},
-	"netmap.subscribeForNewEpoch/1": {kind: kAlphabet, args: func(p *prep) []any { return []any{p.probe} }},
-	"netmap.update/3":               updateSpec("netmap", kMajority),
-	"netmap.updateSnapshotCount/1":  {kind: kAlphabet, args: func(p *prep) []any { return []any{int64(5)} }},
+	"netmap.addPeerIR/1":      {kind: kAlphabet, args: func(p *prep) []any { return []any{nodeBlob(p.node1.PublicKey().Bytes(), 2)} }},
+	"netmap.deleteNode/1":     {kind: kAlphabet, args: func(p *prep) []any { return []any{p.node0.PublicKey().Bytes()} }},
+	"netmap.lastEpochBlock/0": {kind: kNone, noEffect: true, args: func(p *prep) []any { return nil }},
+	"netmap.newEpoch/1":       {kind: kAlphabet, args: func(p *prep) []any { return []any{p.epoch + 1} }},
+	"netmap.setConfig/3":      {kind: kAlphabet, args: func(p *prep) []any { return []any{[]byte("id"), []byte("SomeKey"), []byte("v")} }},
+	"netmap.subscribeForNewEpoch/1": {kind: kAlphabet, args: func(p *prep) []any { return []any{p.probe} }, via: func(p *prep) (util.Uint160, string, []any) {
+		// the contract to be subscribed asks for it itself (seeded change C03-9: "a contract may register itself")
+		return p.probe, "subscribe", []any{p.w.H("netmap")}
+	}},
+	"netmap.update/3":              updateSpec("netmap", kMajority),
+	"netmap.updateSnapshotCount/1": {kind: kAlphabet, args: func(p *prep) []any { return []any{int64(5)} }},
 	"netmap.updateState/2": {kind: kKeyAlphabet, key: func(p *prep) *keys.PrivateKey { return p.node0 }, args: func(p *prep) []any {
 		return []any{int64(3), p.node0.PublicKey().Bytes()}
 	}},
@@ -376,6 +382,22 @@ func runMethod(b *runner.Batch, n int, art, method string, arity int, s spec) {
 			}
 		}
 		b.Hit("further-argument-lists-under-insufficient-sets")
+	}
+	if s.via != nil {
+		tgt, m, args := s.via(p)
+		for _, ss := range sets {
+			if ss.sufficient || p.pre[ss.label] != nil {
+				continue
+			}
+			r := p.w.Invoke(ss.signers, tgt, m, args...)
+			b.Tx(1)
+			if !(r.Rejected != "" || r.Faulted() || (r.Halted() && r.Diff.Empty() && len(r.Events) == 0 && tokenMoves(p.w, r) == 0)) {
+				b.Violation(fmt.Sprintf("%s asked for from inside the contract it is about, under the insufficient signer set '%s', changed state, moved tokens or notified", key, ss.label),
+					map[string]any{"method": key, "signers": ss.label, "committee": n, "tx": p.w.RenderResult(r, true)})
+			}
+			b.Eval(fmt.Sprintf("%s|via-contract|%s|%s|n%d", key, ss.label, r.State, n), true)
+		}
+		b.Hit("request-relayed-by-the-contract-it-is-about")
 	}
 	// insufficient sets first (they must leave the prepared state untouched), sufficient ones last
 	rank := func(x signerSet) int {
